@@ -30,7 +30,7 @@ structure MUnit where
   content : Bytes            -- ChunkMatch.Content ([] in line mode)
   firstLine : Nat            -- ChunkMatch.ContentStart.LineNumber
   sym : Option (List Nat)    -- ChunkMatch.SymbolInfo: `none` = nil
-  bad : Bool                 -- set when the cut hit `log.Panicf("Failed to find enough newlines …")`
+  bad : Bool                 -- was set when the cut hit `log.Panicf("Failed to find enough newlines …")`; never set since that branch keeps the content uncut
   deriving Repr, DecidableEq
 
 structure File where
@@ -71,7 +71,9 @@ def cutUnit (chunk : Bool) (limit : Nat) (u : MUnit) : MUnit :=
       if n > 0 then
         match cutContent u.content n with
         | some c => { u with content := c }
-        | none => { u with bad := true }
+        -- fewer newlines than the line numbers imply (a chunk from a corrupt shard): after
+        -- `fix: limitChunkMatches panics in the request goroutine…` the content is left uncut (it used to `log.Panicf`)
+        | none => u
       else u
     { u1 with items := u.items.take limit, sym := u.sym.map (·.take limit) }
   else
